@@ -38,10 +38,13 @@ claim('C07', 'Bounded only (exploration): compiler correctness of source -> CFG 
 claim('C08', 'Bounded only (exploration): a CFG interpreter written from the property statement is compared with CPython on every enumerated decision path of every generated program, '
       'with operands that log and raise.', SRC_NOTE, 'property-level contract evaluated by differential execution (CFG interpreter vs CPython) over enumerated decision paths', '5.C08',
       category='exploration')
-claim('C09', 'Mixed: the opcode classification is decided completely for the running interpreter (finite enumeration of dis.opmap against dis.hasjrel/hasjabs and '
-      'opcode._inline_cache_entries); block partition/successor claims are checked on a corpus of standard-library code objects against an independent ground truth '
-      '(bounded); contracts on FlowInfo/utils are being brought under proof.',
-      TB + '; WFdis and A-uncond assumed about dis; only Python 3.12 is installed', 'finite case split over the interpreter\'s opcode table + ' + PROOF_PLUS_BOUNDED, '5.C09')
+claim('C09', 'Mixed, mostly proved: utils (classification lookups, offset arithmetic), FlowInfo._add_jump_inst, FlowInfo.from_bytecode, FlowInfo.build_basicblocks '
+      '(contiguous ranges in offset order, names in offset order, fall-through / jump / return successors, no KeyError), PythonBytecodeBlock.get_instructions '
+      '(incl. termination) and SCFG.bcmap_from_bytecode are proved for all instruction streams satisfying WFdis; the opcode classification is decided completely for the '
+      'running interpreter (finite enumeration against dis.hasjrel/hasjabs and opcode._inline_cache_entries); the composition on real code objects is checked on a '
+      'standard-library corpus against an independent ground truth (bounded).',
+      TB + '; WFdis (offsets increasing and even, code ends with a jump or return, jump targets are instruction offsets) and A-uncond assumed about dis; SCFG.__post_init__ assumed; '
+      'only Python 3.12 is installed', 'finite case split over the interpreter\'s opcode table + ' + PROOF_PLUS_BOUNDED, '5.C09')
 claim('C10', 'Bounded only (exploration): static census of the regenerated tree against the restructured graph (every statement object once, every test once as an If.test, '
       'synthetic assignments as a multiset, compiles, reserved names only) on every accepted generated program.', SRC_NOTE,
       'property-level contract evaluated as a static census on the enumerated scope', '5.C10', category='exploration')
